@@ -44,6 +44,18 @@ CHECKS = {
                 technique="error-flow analysis over MIR: every fallible hardware/interface event forks into Ok/Err edges; path rules (no event after an Err edge, error value returned in the variant of its source, result never ignored, no panic) checked on all paths of all functions with fallible operations",
                 text="Enumerates, on the control-flow graph rather than over runs, every path on which the k-th pin/SPI/bus/interface operation fails - for all k, both transports, every model init and every Display method - and checks that the call returns exactly that error wrapped in the variant naming its source (dc/spi, bus/dc/wr, rst/di), performs no further hardware operation, cannot panic, and that no path drops the result of a fallible operation; the sleeping flag and options are unchanged on error paths.",
                 note="Trusted: rustc MIR, interpreter. 'Draws correctly after the fault cleared' is reduced to: state read by later calls is unchanged (here) plus the bus-cache rule of C07 and the state-only proofs of C01/C08. What a real controller does with a half-sent command is out of scope."),
+    "C05": dict(level="proof", design="5/C05",
+                technique="bit-sliced abstract interpretation of each InterfacePixelFormat impl on a symbolic pixel; per-bit polynomial equality with the MIPI DBI encodings; sibling agreement of stream and fill paths",
+                text="For the three (colour, bus word) impls the words produced for a symbolic pixel - as canonical polynomials over the channel bits - equal the oracle encoding (RGB565 MSB first / one 16-bit word; RGB666 three left-aligned bytes) on both the per-pixel stream path and the solid-fill path, with count and words-per-pixel passed on unchanged: all 65 536 / 262 144 values at once. COLMOD per model is C11c-pixel-format.",
+                note="Trusted: rustc MIR, interpreter, embedded-graphics-core raw layout (cross-checked against the compiler-evaluated RED/GREEN/BLUE constants) and accessor semantics, MIPI DBI formats."),
+    "C06": dict(level="other", design="5/C06",
+                technique="event-order (typestate) analysis of the SpiInterface bodies, required-flow rule on written slice lengths, loop-progress (ranking) rule under the property's stated precondition",
+                text="Decided: send_command's word DC low / [command] / DC high / args with error prefixes; pixel methods never touch DC and only write SPI; every written slice is the part staged in this round (never the whole buffer); every loop progresses - iterator loops consume a finite iterator, the repeat counter loop decreases by an amount entailed >= 1 (this found the zero-count hang). Not decided: that exactly count*N bytes are written and that chunk k carries pixel k.",
+                note="Level 'other' because byte-exact delivery through the chunk arithmetic is not decided. Assumes the property's precondition len(buffer) >= N and a buffer shorter than 4 GiB. Found and fixed: count = 0 never terminated (commit d268bb6)."),
+    "C07": dict(level="other", design="5/C07",
+                technique="DFA over interpreted event traces (loops as fixpoints) for the strobe protocol; per-pin polynomial equality for the bus cache invariant; Range trip-count and overflow obligations for the repeat fast path",
+                text="Decided: every word is WR low + bus := word, then WR high; command byte with DC low, DC high before parameters, parameters and pixel words taken from the slice/array in order; per data pin (8 and 16 bit buses) the pin is driven iff the cache is empty or the bit differs, to the bit's level, early return iff the cache equals the value, cache Some(value) only after all pins succeeded and None after any pin failure (inductive step of 'pins show the last value' under arbitrary failures); the all-equal fast path is one full word plus a 1..count*N loop of bare strobes without bus updates, and its count arithmetic cannot overflow.",
+                note="Level 'other': the equality of the latched sequence with the word sequence is reduced to these per-step obligations plus the finite-iterator contract; electrical timing out of scope. Found and fixed: u32 overflow of count*N (commit d3566e8)."),
 }
 
 NOT_APPLICABLE = {
